@@ -33,7 +33,7 @@ theorem rep_emit (n : Nat) (o : Obs) : Pres (RepIs n) (emit o) := by
 
 theorem repLeafY (n : Nat) : LeafY (RepIs n) where
   emit := rep_emit n
-  setK := fun k => by unfold setK; rep_same_tac
+  runK := fun f _ => by apply rep_same; intro s; rfl
   emitEv := fun w t p x => by
     apply rep_same; intro s; simp only [emitEv, modS, repCount]
     split <;> simp [List.countP_append, Obs.isRep]
